@@ -84,5 +84,8 @@ Apply(st, a) ==
       [] a.name = "UpgraderUpgrade"   -> UpgraderUpgrade(st, a)
 
 Obs(st) == [version |-> VersionOf(st.code), data |-> st.data, owner |-> st.owner,
-            code |-> st.code, migrating |-> st.migrating]
+            code |-> st.code, migrating |-> st.migrating,
+            \* the holder of the target's other role (gateway operator, gas collector; "someone" in the binding), visible
+            \* while the native code runs: neither upgrade nor migration touches it
+            aux |-> IF st.code = "native" /\ Target \in {"gateway", "gas"} THEN "someone" ELSE "n/a"]
 =============================================================================
